@@ -77,5 +77,51 @@ def gen_conc(seed, spb, lbits, nthreads=None, profile=None):
     lines.append('seed %d' % r.getrandbits(32))
     return '\n'.join(lines) + '\n'
 
+def gen_sweep(seed, spb, lbits, maxpoints=90):
+    """Systematic single-preemption sweep over a small program built around bucket displacement: both
+    candidate buckets of a new key are full (all keys share one hash, or two hashes with equal buckets),
+    one thread inserts it (BFS + path execution), the others erase / update / re-insert residents or
+    resize.  Returns explicit schedules: thread order (p0,p1,..): p0 runs j scheduling points, then the
+    others run to completion in order, then p0 finishes - for every j."""
+    r = random.Random(seed)
+    nres = 2 * spb
+    h = r.getrandbits(64)
+    keys = {k: h for k in range(1, nres + 4)}
+    if r.random() < 0.4:
+        # second group: same tag and low bits, differing higher bits
+        h2 = gen.hash_with_tag(r, gen.partial_key(h), h & 7, 3)
+        for k in range(nres // 2 + 1, nres + 4):
+            if r.random() < 0.5: keys[k] = h2
+    hdr = ['# conc sweep', 'cfg %d %d 1 1 0' % (spb, lbits)] + ['key %d %d' % kv for kv in keys.items()]
+    hdr.append('init %d' % r.choice([1, 2, 4, 8]))
+    hdr.append('pre mhp %d' % r.choice([5, 6]))
+    for k in range(1, nres + 1):
+        hdr.append('pre insert %d %d' % (k, 10 * k))
+    newk = nres + 1
+    victim = r.randrange(1, nres + 1)
+    t0 = r.choice(['insert %d 5' % newk, 'upsert %d add:1 1 5' % newk, 'uprase %d ctx:1:1 1 5' % newk, 'ioa %d 5' % newk])
+    others = []
+    o1 = r.choice(['erase %d' % victim, 'erase %d ; insert %d 7' % (victim, victim), 'erasefn %d eraseifeq:%d' % (victim, 10 * victim),
+                   'erase %d ; updatefn %d add:1' % (victim, r.randrange(1, nres + 1))])
+    others.append(o1)
+    if r.random() < 0.5:
+        others.append(r.choice(['updatefn %d add:1 ; updatefn %d add:1' % (victim, victim), 'rehash %d' % r.choice([1, 2, 3]),
+                                'insert %d 9' % (nres + 2), 'find %d ; find %d' % (victim, newk), 'lock ; l.erase %d ; unlock' % victim]))
+    progs = [t0] + others
+    scripts = []
+    nthr = len(progs)
+    orders = [[0] + list(range(1, nthr))]
+    if nthr > 2:
+        orders.append([0, 2, 1])
+    orders.append([1, 0] + list(range(2, nthr)))
+    for order in orders:
+        body = ['thread %d %s' % (i, progs[i]) for i in range(nthr)]
+        for j in range(1, maxpoints):
+            sched = [order[0]] * j
+            for u in order[1:]:
+                sched += [u] * 300
+            scripts.append('\n'.join(hdr + body + ['sched ' + ' '.join(map(str, sched))]) + '\n')
+    return scripts
+
 if __name__ == '__main__':
     sys.stdout.write(gen_conc(int(sys.argv[1]), int(sys.argv[2]), int(sys.argv[3])))
